@@ -189,6 +189,80 @@ pub fn run(tier: Tier) -> i32 {
         }
     });
 
+    // faults inside the body of a macro that is called (once, and twice): the error names the body
+    // line or the calling line
+    let n_in_macro = AtomicU64::new(0);
+    {
+        let body = ["ldi r16, 1", "mov r1, r16", ".dw 7", "lab_in_macro_q: nop", "ldi r17, low(0x1234)"];
+        let mut mw: Vec<(usize, usize, usize)> = vec![]; // fault, body position, number of calls
+        for (fi, f) in FAULTS.iter().enumerate() {
+            if f.lines.len() != 1 {
+                continue;
+            }
+            for pos in 0..=body.len() {
+                for calls in [1usize, 2] {
+                    mw.push((fi, pos, calls));
+                }
+            }
+        }
+        mw.par_iter().for_each(|(fi, pos, calls)| {
+            let f = &FAULTS[*fi];
+            // a label in a body that is expanded twice is a duplicate of its own: one call then
+            if *calls == 2 && (*pos <= 3 || f.name == "duplicate-label") {
+                return;
+            }
+            let mut lines: Vec<String> = (0..40).map(|i| format!("; filler {}", i)).collect();
+            lines.push("dup_lbl_q:".into());
+            let dup_line = lines.len();
+            lines.push("nop".into());
+            lines.push(".macro fault_m".into());
+            let mut fault_line = 0usize;
+            for (i, b) in body.iter().enumerate() {
+                if i == *pos {
+                    lines.push(f.lines[0].to_string());
+                    fault_line = lines.len();
+                }
+                if *calls == 2 && b.starts_with("lab_in_macro_q") {
+                    lines.push("nop".into());
+                } else {
+                    lines.push(b.to_string());
+                }
+            }
+            if *pos == body.len() {
+                lines.push(f.lines[0].to_string());
+                fault_line = lines.len();
+            }
+            lines.push(".endm".into());
+            lines.push("ldi r18, 2".into());
+            let mut call_lines = vec![];
+            for _ in 0..*calls {
+                lines.push("fault_m".into());
+                call_lines.push(lines.len());
+                lines.push("ldi r18, 3".into());
+            }
+            let text = lines.join("\n") + "\n";
+            let o = sut::build_str(&text);
+            evals.fetch_add(1, Ordering::Relaxed);
+            n_in_macro.fetch_add(1, Ordering::Relaxed);
+            let bad: Option<(&str, String)> = match &o {
+                Outcome::Err(e) => {
+                    let named = has_number_token(e, fault_line) || call_lines.iter().any(|c| has_number_token(e, *c)) || (f.name == "duplicate-label" && has_number_token(e, dup_line));
+                    if named {
+                        None
+                    } else {
+                        Some(("no-line", format!("the error names neither the body line {} nor a calling line {:?}: {}", fault_line, call_lines, e)))
+                    }
+                }
+                Outcome::Ok(_) => Some(("accepted", format!("the faulty body line {} is assembled by the call(s) on {:?} but the build succeeds", fault_line, call_lines))),
+                Outcome::Panic { site, msg } => Some(("panic", format!("panic at {}: {}", site, msg))),
+            };
+            if let Some((kind, what)) = bad {
+                rep.violation(&format!("C15/{}-in-macro-body/fault={}", kind, f.name), || format!("fault `{}` as line {} of a macro body called {} time(s): {}", f.lines[0], fault_line, calls, what), || {
+                    json!({"kind": "build_str", "source": text, "fault": f.name, "fault_line": fault_line, "calling_lines": call_lines, "expected": "err naming the body line or a calling line", "observed": o.to_json()})
+                });
+            }
+        });
+    }
     // messages: all 4^5 placements over the five slots of the skeleton
     let slot_text = |kind: usize, slot: usize| -> Option<String> {
         match kind {
@@ -320,7 +394,7 @@ pub fn run(tier: Tier) -> i32 {
     rep.sample(|| json!({"fault": FAULTS[4].name, "inserted_line_text": FAULTS[4].lines[0], "program": usable[0].0, "leading_comment_lines": SHIFT, "expected": "Err whose text contains the line number of the inserted line"}));
     rep.sample(|| json!({"message_skeleton_slots": ["top level", "taken .if arm", "untaken .else arm", "taken .else arm", "after .endif"], "each_slot": ["nothing", ".message", ".warning", ".error"], "sixth_slot": "body of a macro that is called", "placements": 4096}));
     rep.assume("'names that line's number' is decided by a decimal token match on the error text; the corpus keeps numeric literals away from the line-number range (lines are shifted by 700 comment lines)");
-    rep.assume("faults are inserted only at live positions (not inside macro bodies, conditional constructs or after .exit), instruction faults only in the code segment");
+    rep.assume("in the corpus programs faults are inserted only at live positions (not inside macro bodies, conditional constructs or after .exit), instruction faults only in the code segment; faults inside a macro body are exercised with a dedicated program (every single-line fault at every body position, the macro called once or twice), where the body line or a calling line may be named");
     rep.assume("for a duplicate label either occurrence may be named");
     let coverage = cov(json!({
         "evaluations": evals.load(Ordering::Relaxed),
@@ -332,6 +406,7 @@ pub fn run(tier: Tier) -> i32 {
         "errors_naming_the_line": named.load(Ordering::Relaxed),
         "distinct_error_shapes": distinct_err.lock().unwrap().len(),
         "message_placements": n_msg.load(Ordering::Relaxed),
+        "faults_inside_a_called_macro_body": n_in_macro.load(Ordering::Relaxed),
         "caps_hit": [],
         "trusted_base": ["harness lexer for liveness/segment context", "decimal token match"],
     }));
